@@ -85,6 +85,12 @@ fn bernoulli_path_mass(calls: &[Rec]) -> Option<Q> {
 }
 
 pub fn part3_taylor(ctx: &mut Ctx) {
+    ELIDE_CERTAIN.with(|e| e.set(false));
+    part3_taylor_inner(ctx);
+    ELIDE_CERTAIN.with(|e| e.set(true));
+}
+
+fn part3_taylor_inner(ctx: &mut Ctx) {
     let mask = Mask::of(&[Layer::Bernoulli]);
     // L2: gamma in [0,1]; paths T^j F for j < K.
     let k2 = ctx.budget(14, 40) as usize;
@@ -842,13 +848,15 @@ pub fn part6_tapes(ctx: &mut Ctx, sign_first: bool) {
             _ => {}
         }
         // reference
-        let mut src = TapeSrc { tape: &tape, pos: 0, draws: 0 };
+        let mut src = TapeSrc { tape: &tape, pos: 0, draws: 0, skip_trivial: false };
         let mut m = Model::new(&mut src, sign_first);
         if top == Layer::DiscreteGaussian {
             m.gauss_t = gauss_ts[((i / 2) as usize) % extra.len()].clone();
         }
         m.record = false;
         m.cap = 100_000;
+        // raw byte-tape mode: the reference consumes the tape exactly like the published algorithms
+        m.elide_certain = false;
         let want = m.run(top, &arg);
         drop(m);
         let want = match want {
@@ -886,7 +894,31 @@ pub fn part6_tapes(ctx: &mut Ctx, sign_first: bool) {
                 }
                 done += 1;
                 max_draws = max_draws.max(src.draws);
+                // A different integer on the same RAW tape is a violation unless it is fully explained by
+                // certain-outcome draws (a uniform draw below 1, made or omitted around Bernoulli(0/1) and
+                // exp(-0) trials): those consume tape bytes without carrying any probability. Arbiter: run code
+                // and reference again in NORMALISED mode (uniform draws decoded from the tape by the harness,
+                // draws below 1 consume nothing, certain sub-calls skipped by the reference). Agreement there
+                // means the two realise the same map from the informative draws to the output. (Defects inside
+                // the uniform draw itself are part 1's subject, not this one's.)
+                let mut explained = false;
                 if got != want {
+                    let mut src2 = TapeSrc { tape: &tape, pos: 0, draws: 0, skip_trivial: true };
+                    let mut m2 = Model::new(&mut src2, sign_first);
+                    if top == Layer::DiscreteGaussian {
+                        m2.gauss_t = gauss_ts[((i / 2) as usize) % extra.len()].clone();
+                    }
+                    m2.record = false;
+                    m2.cap = 100_000;
+                    let want2 = m2.run(top, &arg).ok();
+                    drop(m2);
+                    let got2 = run_tape_normalised(top, &arg, true, &tape, 1_000_000);
+                    if want2.is_some() && got2 == want2 {
+                        explained = true;
+                        ctx.count("e2e_tape_divergence_explained_by_certain_draws");
+                    }
+                }
+                if got != want && !explained {
                     ctx.violation(
                         format!("e2e-tape|{}|result", lname(top)),
                         "Distribution::sample on a fixed random tape returns a different integer than the CKS20 reference algorithm run on the same tape",
